@@ -71,7 +71,10 @@ theorem mem_mkMethods (l ms : List String) (h : mkMethods l = some ms) (m : Stri
   · simp only [he, Bool.false_eq_true, if_false] at h
     by_cases hany : (compact (sortStrs (expandAll l))).any (·.isEmpty)
     · simp [hany] at h
-    · simp only [hany, Bool.false_eq_true, if_false, Option.some.injEq] at h
+    · simp only [hany, Bool.false_eq_true, if_false] at h
+      split at h
+      · cases h
+      simp only [Option.some.injEq] at h
       subst h
       have hl2 : ∀ y, y ∈ compact (sortStrs (expandAll l)) ↔ y ∈ expandAll l := by
         intro y; rw [mem_compact, mem_sortStrs]
@@ -94,5 +97,23 @@ theorem mem_mkMethods (l ms : List String) (h : mkMethods l = some ms) (m : Stri
         rw [dropBang_bang] at hd
         subst hd
         exact h3 hx1
+
+/-- a configured methods list never results in "any method": the effective list of a non-empty configuration is
+non-empty (a list allowing nothing is a configuration error) -/
+theorem mkMethods_nonempty (l ms : List String) (hl : l ≠ []) (h : mkMethods l = some ms) : ms ≠ [] := by
+  unfold mkMethods at h
+  have he : l.isEmpty = false := by cases l <;> simp_all
+  simp only [he, Bool.false_eq_true, if_false] at h
+  split at h
+  · cases h
+  split at h
+  · cases h
+  · rename_i hne
+    simp only [Option.some.injEq] at h
+    subst h
+    intro hnil
+    apply hne
+    rw [hnil]
+    rfl
 
 end Heimdall
